@@ -9291,3 +9291,20 @@ pub mod benches {
 		}));
 	}
 }
+
+#[cfg(feature = "_verif")]
+#[allow(missing_docs)]
+pub mod verif_hooks {
+	use super::*;
+	pub fn compute_fees(amount_msat: u64, channel_fees: RoutingFees) -> Option<u64> {
+		super::compute_fees(amount_msat, channel_fees)
+	}
+	pub fn compute_fees_saturating(amount_msat: u64, channel_fees: RoutingFees) -> u64 {
+		super::compute_fees_saturating(amount_msat, channel_fees)
+	}
+	pub fn max_htlc_from_capacity(
+		capacity: EffectiveCapacity, max_channel_saturation_power_of_half: u8,
+	) -> u64 {
+		super::max_htlc_from_capacity(capacity, max_channel_saturation_power_of_half)
+	}
+}
